@@ -327,7 +327,7 @@ func init() {
 		ID:    "C03",
 		Level: "exploration",
 		Rule: "(1) every string of length <= 3 and every string containing '%' of length <= 5 (quick) / <= 6 (thorough) over {%, a, p, ., (, ), \", space, comma, é} as a parameter value: build verdict vs. hand-written evaluator (reject / accept / unspecified), accepted ones packed and evaluated by GetParam in a probe; " +
-			"(1b) every argument text of length <= 4 / <= 5 over {(, ), \", a, comma, space, ., /} inside %a(...)%, in both modes; (1d) every string of length <= 3 over {%, backslash, \", newline, NUL, an astral rune, ', `, $, @, !, U+2028} as parameter and as constructor argument; (2) every chunk sequence of length <= 3 (quick) / <= 4 (thorough) over 25 chunk kinds (literals, %%, references to every literal type, functions ok/failing, env/envInt hit/miss/default/bad, todo) as parameter and as constructor argument; (3) the doubling corollary for every string of (1); (4) 36 values of the environment variable (signs, leading zeros, base prefixes, underscores, blanks, int64 limits, non-ASCII digits, %) read through env / envInt, alone, with defaults and inside patterns. non-trivial = contains '%' or is evaluated at run time; distinct = distinct string / sequence",
+			"(1b) every argument text of length <= 4 / <= 5 over {(, ), \", a, comma, space, ., /} inside %a(...)%, in both modes; (1d) every string of length <= 3 over {%, backslash, \", newline, NUL, an astral rune, ', `, $, @, !, U+2028} as parameter and as constructor argument; (2) every chunk sequence of length <= 3 (quick) / <= 4 (thorough) over 25 chunk kinds (literals, %%, references to every literal type, functions ok/failing, env/envInt hit/miss/default/bad, todo) as parameter and as constructor argument; (3) the doubling corollary for every string of (1); (4) 36 values of the environment variable (signs, leading zeros, base prefixes, underscores, blanks, int64 limits, non-ASCII digits, %) read through env / envInt, alone, with defaults and inside patterns; (5) a registered function with typed parameters (int64, float64, uint8, string, ...float32) called with integer and float literals. non-trivial = contains '%' or is evaluated at run time; distinct = distinct string / sequence",
 		Assumptions: []string{
 			"unspecified: function-call chunks whose argument text is valid Go but not a list of string literals (identifiers would have to exist as Go symbols)",
 			"the pinned runtime's documented string cast (exporter.CastToString) is re-stated in the model for the YAML literal types",
@@ -613,6 +613,24 @@ func init() {
 					behaviourOracle(c, outs, err)
 				})
 			}
+			// (5) a registered function whose parameter types differ from the literal types: the call happens "with those
+			// arguments", i.e. converted to the parameter types
+			w.Case("typed-function-arguments", func(c *C) {
+				cfg := &Cfg{Meta: stdMeta()}
+				var ops []ProbeOp
+				for i, a := range []string{`1, 2, 3, "x"`, `-7, 2.5, 255, ""`, `0, 0, 0, "%"`, `9223372036854775807, 1e300, 1, "s", 1, 2, 3.5`, `1,2,3,"a, b"`, ` 4 , 5 , 6 , "sp" `, `1, 2, 3, "x", -0.5`} {
+					n := fmt.Sprintf("t%d", i)
+					if strings.Contains(a, "%") {
+						continue
+					}
+					cfg.Params = append(cfg.Params, Param{n, "%fnTyped(" + a + ")%"}, Param{n + "m", "<%fnTyped(" + a + ")%|%" + n + "%>"})
+					ops = append(ops, op("param", n), op("param", n+"m"))
+					c.Distinct("all", "typed:"+a)
+					c.Distinct("nontrivial", "typed:"+a)
+				}
+				outs, err := w.RunBehaviour([]*BCase{{ID: c.ID, Cfg: cfg, Sessions: []BSession{{Ops: append(ops, op("counters", ""))}}}})
+				behaviourOracle(c, outs, err)
+			})
 			// (4) what the environment holds: envInt is strconv.Atoi of the variable, env is the variable verbatim
 			w.Case("environment-values", func(c *C) {
 				vals := []string{"0", "-0", "+5", "7", "010", "0080", "0x1F", "0X1f", "0b11", "0o17", "1_000", " 5", "5 ", "5\n", "9223372036854775807", "9223372036854775808", "-9223372036854775808",
